@@ -260,3 +260,66 @@ def op_graph_sample(req, trace):
     trace.emit({'t': 'probe', 'name': 'graph', 'p': {'violations': viols[:20],
                                                       'stats': stats}})
     _exit_event(trace, 'ok')
+
+
+def walk_signature(sig):
+    """[(app, model, field, related_model)] whose related_model names an
+    app/model absent from the signature."""
+    dangling = []
+    # strict lookup by the *current* app id (get_app_sig() also answers to
+    # the legacy label)
+    have = {}
+    for app_sig in sig.app_sigs:
+        have[app_sig.app_id] = set(m.model_name for m in app_sig.model_sigs)
+    for app_sig in sig.app_sigs:
+        for model_sig in app_sig.model_sigs:
+            for field_sig in model_sig.field_sigs:
+                rel = field_sig.related_model
+                if not rel:
+                    continue
+                ra, rm = rel.split('.', 1)
+                if ra not in have or rm not in have[ra]:
+                    dangling.append([app_sig.app_id, model_sig.model_name,
+                                     field_sig.field_name, rel])
+    return dangling
+
+
+@register('simulate_walk')
+def op_simulate_walk(req, trace):
+    """C11: simulate the listed evolutions one mutation at a time on the
+    stored signature and walk the project signature after each mutation."""
+    configure(req)
+    from django_evolution.db.state import DatabaseState
+    from django_evolution.models import Version
+    from django_evolution.errors import EvolutionException
+    args = req['args']
+    db = args.get('database', 'default')
+    out = []
+    status, exc = 'ok', None
+    try:
+        sig = Version.objects.current_version(using=db).signature
+        st = DatabaseState(db)
+        out.append({'after': None, 'dangling': walk_signature(sig)})
+        for item in args['plan']:
+            mod = importlib.import_module('%s.evolutions.%s' % (
+                item['pkg'], item['label']))
+            app_label = item['app_label']
+            for m in mod.MUTATIONS:
+                rec = {'after': str(m)}
+                try:
+                    m.run_simulation(app_label=app_label, project_sig=sig,
+                                     database_state=st,
+                                     legacy_app_label=item.get('legacy'),
+                                     database=db)
+                    if type(m).__name__ == 'RenameAppLabel':
+                        app_label = m.new_app_label
+                except EvolutionException as e:
+                    rec['sim_error'] = '%s: %s' % (type(e).__name__, e)
+                rec['dangling'] = walk_signature(sig)
+                rec['apps'] = sorted(a.app_id for a in sig.app_sigs)
+                out.append(rec)
+    except Exception as e:
+        status, exc = 'exception', e
+        trace.emit({'t': 'tb', 'tb': traceback.format_exc()})
+    trace.emit({'t': 'probe', 'name': 'walk', 'p': out})
+    _exit_event(trace, status, exc)
